@@ -6,7 +6,7 @@ from . import pcommon
 NEED = ('reply-after-timeout', 'second-stamp', 'challenge-answer', 'timeout-fired', 'password-bang', 'accept-D', 'accept-R')
 
 def plan(tier):
-    return pcommon.plan_solo(tier) + [pcommon.reload_search(tier)]      # incl. reloads of the service table while the client waits
+    return [pcommon.reload_search(tier, 'refuse')] + pcommon.plan_solo(tier) + [pcommon.reload_search(tier)]      # incl. reloads of the service table while the client waits
 
 def main(tier):
     return pcommon.run_plan('C03', tier, plan(tier), ('C03.',), NEED, crash_is_violation=True)
